@@ -72,6 +72,7 @@ static bool ref_run(int m, int ev) {
         if (ri_taken < 0) return false;
         next = R[m][s][ri_taken].to;
     }
+    if (next > NS) return false;                                           // an undeclared target: the event is rejected, nothing changes (and later calls work as usual)
     log_r(T_EXIT, m, s, 0);
     if (ri_taken >= 0) log_r(T_ACT, m, s, ri_taken);
     cur_[m] = next;
@@ -104,7 +105,7 @@ static void build(int m) {
 extern "C" void h_sm() {
     n_impl = n_ref = g_impl = g_ref = h_impl = h_ref = 0; reent_fired = false;
     for (int i = 0; i < 24; i++) gres[i] = nondet_bool();
-    for (int i = 0; i < 12; i++) { unsigned v = nondet_uchar(); VP_ASSUME(v <= NS + 1); hres[i] = (int)v - 1; }     // -1 = "no decision", else target 0..NS
+    for (int i = 0; i < 12; i++) { unsigned v = nondet_uchar(); VP_ASSUME(v <= NS + 2); hres[i] = (int)v - 1; }     // -1 = "no decision", else target 0..NS, or NS+1 = a state id that was never declared
     StateMachine top, sub; SM[0] = &top; SM[1] = &sub;
     build(0); build(1);
     sub_state = SUBST;                                      // which top state owns the sub-machine (one solver run per position; 0 = none)
